@@ -152,6 +152,26 @@ def checkArgs (p : Package) : List (Str × Val) → Except Diag Unit
     | none => .error (.unknownArg n)
     | some expected => if v.kind.sub expected then checkArgs p rest else .error (.mismatchedArg n)
 
+/-- the instantiation itself: every supplied argument must fit, then either all imports are
+    supplied or `...` imports the missing ones from the composition -/
+def finishNew (st : St) (pkg : Str) (ver : Option Str) (p : Package) (given : List (Str × Val)) (fill : Bool) :
+    Except Diag (St × Val) :=
+  match checkArgs p given with
+  | .error e => .error e
+  | .ok () =>
+    let missing := p.imports.toList.filter (fun (n, _) => !alHas n given)
+    -- "If `...` is not specified, then all instantiation arguments must be explicitly specified"
+    match fill, missing with
+    | false, (n, _) :: _ => .error (.missingArg n)
+    | _, _ =>
+      -- "`...` … any missing arguments should be imported from the composition"
+      let inst : Instantiation :=
+        { pkg := pkg, ver := ver,
+          args := given.map (fun (n, v) => (n, v.prov)) ++ missing.map (fun (n, _) => (n, Prov.imp n)) }
+      let k := st.insts.length
+      .ok ({ st with insts := st.insts ++ [inst], implicit := st.implicit ++ missing },
+           { prov := .inst k, kind := .inst none p.exports })
+
 mutual
 def evalExpr (lib : Lib) (self : Str) (st : St) : Expr → Except Diag (St × Val)
   | .ident x =>
@@ -184,22 +204,7 @@ def evalExpr (lib : Lib) (self : Str) (st : St) : Expr → Except Diag (St × Va
         -- then the spread arguments, in order
         match applySpreads st imports (spreadNames args) explicit with
         | .error e => .error e
-        | .ok given =>
-          match checkArgs p given with
-          | .error e => .error e
-          | .ok () =>
-            let missing := p.imports.toList.filter (fun (n, _) => !alHas n given)
-            -- "If `...` is not specified, then all instantiation arguments must be explicitly specified"
-            match fill, missing with
-            | false, (n, _) :: _ => .error (.missingArg n)
-            | _, _ =>
-              -- "`...` … any missing arguments should be imported from the composition"
-              let inst : Instantiation :=
-                { pkg := pkg, ver := ver,
-                  args := given.map (fun (n, v) => (n, v.prov)) ++ missing.map (fun (n, _) => (n, Prov.imp n)) }
-              let k := st.insts.length
-              .ok ({ st with insts := st.insts ++ [inst], implicit := st.implicit ++ missing },
-                   { prov := .inst k, kind := .inst none p.exports })
+        | .ok given => finishNew st pkg ver p given fill
 /-- explicit (inferred and named) arguments; returns the bound names in order and whether `...` ends the list -/
 def evalArgs (lib : Lib) (self : Str) (imports : List Str) (st : St) (acc : List (Str × Val)) :
     Args → Except Diag (St × List (Str × Val) × Bool)
